@@ -31,7 +31,7 @@ def _work(job):
         if job["kind"] == "time":
             out, info = calcases.run_time_cases(job["cases"], job["zone"], job["mode"], job["frontend"])
             return {"ok": True, "time": out, "info": info}
-        return {"ok": True, "filters": calcases.run_filter_cases(job["table"], job["frontend"])}
+        return {"ok": True, "filters": calcases.run_filter_cases(job["table"], job["frontend"], job.get("threshold"))}
     except Exception:
         return {"ok": False, "error": traceback.format_exc()}
 
@@ -59,6 +59,9 @@ def run(prop, tier, seed, replay=None):
     for (zone, mode) in scen:
         jobs.append({"kind": "time", "cases": tables["time"], "zone": zone, "mode": mode, "frontend": "wsgi"})
     jobs.append({"kind": "filter", "table": tables["filters"], "frontend": "wsgi"})
+    # the same table answered from the index from the first query on, and never from the index
+    jobs.append({"kind": "filter", "table": tables["filters"], "frontend": "wsgi", "threshold": 0})
+    jobs.append({"kind": "filter", "table": tables["filters"], "frontend": "wsgi", "threshold": 10 ** 9})
     jobs.append({"kind": "fb", "cases": tables["time"], "frontend": "wsgi"})
     if not quick:
         jobs.append({"kind": "time", "cases": tables["time"], "zone": None, "mode": "utc", "frontend": "aiohttp"})
